@@ -130,6 +130,44 @@ def basis_messages():
     return out
 
 
+def _gf_inv(a):
+    return gf256.power(a, 254)
+
+
+def _solve3(cols, target):
+    """p with p0*cols[0] + p1*cols[1] + p2*cols[2] == target over GF(2^8) (Gauss-Jordan on the 3x3 system)"""
+    m = [[cols[j][i] for j in range(3)] + [target[i]] for i in range(3)]
+    for c in range(3):
+        piv = next(r for r in range(c, 3) if m[r][c])
+        m[c], m[piv] = m[piv], m[c]
+        inv = _gf_inv(m[c][c])
+        m[c] = [gf256.mul(v, inv) for v in m[c]]
+        for r in range(3):
+            if r != c and m[r][c]:
+                f = m[r][c]
+                m[r] = [v ^ gf256.mul(f, w) for v, w in zip(m[r], m[c])]
+    return bytes(m[i][3] for i in range(3))
+
+
+def register_state_messages():
+    cols = [gf256.parity(bytes(1 if j == i else 0 for j in range(3))) for i in range(3)]
+    seen, out = set(), []
+    tail_seed = env.det_bytes("c11-regstate-tail", 8)
+    for x in range(1, 256):
+        for pat in range(1, 8):
+            state = tuple(x if pat & (4 >> i) else 0 for i in range(3))
+            p = _solve3(cols, state)
+            assert tuple(gf256.parity(p)) == state
+            for lead in (0, 2):
+                for nxt in (0, x, 1, 0xFF, x ^ 0xFF):
+                    for tail in (bytes(8), tail_seed):
+                        m = (bytes(lead) + p + bytes([nxt]) + tail)[:9]
+                        if m not in seen:
+                            seen.add(m)
+                            out.append(m)
+    return out
+
+
 def check_generate(acc, msg, mask, all_masks, horner=True):
     """one (message, mask) case; returns the library word or None"""
     case = {"op": "generate", "message": msg.hex(), "mask": mask.hex()}
@@ -350,6 +388,26 @@ def run(only=None):
         std = (MASK_VOICE_LC, MASK_TERMINATOR)
         tasks = [(pq, values, lo, hi, std) for pq in pairs for lo, hi in par.chunks(len(values), 8 if thorough else 1)]
         for acc in par.pmap(w_generate_pairs, tasks, nw):
+            s.merge(acc)
+        s.done()
+
+    if want("generate_division_register_states"):
+        s = rep.sub("generate_division_register_states",
+                    "the encoder is a 3-cell division register over GF(2^8): messages that drive it (by the reference's own long division, solved for the "
+                    "3-octet prefix) into every state with one distinct non-zero value x in any subset of the cells (7 patterns x 255 values), after 0 or 2 "
+                    "leading zero octets, followed by the next octet 0 / x / 1 / ff / ~x and a zero or seed tail: word = message + parity with zero "
+                    "syndromes (a shortcut taken in a special register state - 'nothing to update' - shows here; among these are all messages whose "
+                    "prefix is itself a multiple of g(x))")
+        msgs = register_state_messages()
+        s.declared = len(msgs)
+
+        def w_states(chunk):
+            acc = Acc()
+            for m in chunk:
+                check_generate(acc, m, MASK_NONE, (MASK_NONE,), horner=False)
+            return acc
+
+        for acc in par.pmap(w_states, par.split_list(msgs, 64), nw):
             s.merge(acc)
         s.done()
 
